@@ -1,13 +1,91 @@
 import Thanos.Common.Parse
+import Thanos.Model.Iter
 /-
   Line-protocol driver of the `dedup` family (C01 C02 C04 C40).
   One request per line, one answer per line; every line is self-contained.
+
+  dd.run <f> <replicas> <calls>          (C01, C02)
+     f        = PromQL function name of the select hints, `none` for the empty string
+                (increase | rate | irate | resets  ⇒ counter adjustment)
+     replicas = r;r;…      r = e (no samples) | t:v,t:v,…     (integers)
+     calls    = c,c,…      c = n (Next) | s<t> (Seek t) | d (Next until ValNone)
+     answer   = o,o,…      o = t:v (At() after a successful call) | x (ValNone) | panic (trace ends)
 -/
 open Thanos Thanos.Parse
 
 namespace Thanos.Driver.Dedup
+open Thanos.Dedup
+
+def parseSample (s : String) : Option Sample :=
+  match splitChar ':' s with
+  | [t, v] => do
+    let t ← parseInt? t
+    let v ← parseInt? v
+    pure { t := t, v := v }
+  | _ => none
+
+def parseReplica (s : String) : Option (List Sample) :=
+  if s = "e" then some [] else (splitChar ',' s).mapM parseSample
+
+def parseReplicas (s : String) : Option (List (List Sample)) :=
+  (splitChar ';' s).mapM parseReplica
+
+inductive DCall where
+  | call (c : Call)
+  | drain
+
+def parseCall (s : String) : Option DCall :=
+  if s = "n" then some (.call .next)
+  else if s = "d" then some .drain
+  else match s.toList with
+    | 's' :: rest => (parseInt? (String.ofList rest)).map fun t => .call (.seek t)
+    | _ => none
+
+def isCounterFn (f : String) : Bool := f = "increase" || f = "rate" || f = "irate" || f = "resets"
+
+def showObs : Obs → String
+  | .sample s => s!"{s.t}:{s.v}"
+  | .none => "x"
+  | .panic => "panic"
+
+/-- `Next` until `ValNone`, at most `n` times -/
+def drainObs (o : Ops σ) : Nat → σ → List Obs × σ
+  | 0, s => ([.panic], s)
+  | n + 1, s =>
+    let r := o.next s
+    if o.bad r.1 then ([.panic], r.1)
+    else if r.2 then
+      match o.atS r.1 with
+      | some x => let q := drainObs o n r.1; (.sample x :: q.1, q.2)
+      | none => ([.panic], r.1)
+    else ([.none], r.1)
+
+def runD (o : Ops σ) : List DCall → σ → List Obs
+  | [], _ => []
+  | .drain :: cs, s =>
+    let q := drainObs o (o.fuel s + 2) s
+    if q.1.getLast? = some .panic then q.1 else q.1 ++ runD o cs q.2
+  | .call c :: cs, s =>
+    let r := match c with
+      | .next => o.next s
+      | .seek t => o.seek t s
+    if o.bad r.1 then [.panic]
+    else if r.2 then
+      match o.atS r.1 with
+      | some x => .sample x :: runD o cs r.1
+      | none => [.panic]
+    else .none :: runD o cs r.1
+
+/-- which `dedupSeriesIterator.Seek` the driver runs: the one of the tree the model follows -/
+def seekFixed : Bool := true
 
 def handle : List String → String
+  | ["dd.run", f, reps, calls] =>
+    match parseReplicas reps, (listOf ',' calls).mapM parseCall with
+    | some (r :: rs), some cs =>
+      let it := mk seekFixed (isCounterFn f) r rs
+      joinWith "," ((runD it.ops cs it.st).map showObs)
+    | _, _ => "bad-op"
   | _ => "bad-op"
 
 end Thanos.Driver.Dedup
